@@ -653,6 +653,9 @@ static parsec_data_t* twoDBC_kcyclic_data_of(parsec_data_collection_t *desc, ...
     m += dc->super.i / dc->super.mb;
     n += dc->super.j / dc->super.nb;
 
+    /* The data key is built from the global tile coordinates, as data_key() does */
+    const int global_m = m, global_n = n;
+
     /* Compute the local tile row */
     local_m = ( m / (dc->grid.krows * dc->grid.rows) ) * dc->grid.krows;
     m = m % (dc->grid.krows * dc->grid.rows);
@@ -680,7 +683,7 @@ static parsec_data_t* twoDBC_kcyclic_data_of(parsec_data_collection_t *desc, ...
 
     return parsec_tiled_matrix_create_data( &dc->super,
                                      (char*)dc->mat + pos * parsec_datadist_getsizeoftype(dc->super.mtype),
-                                     position, (n * dc->super.lmt) + m );
+                                     position, (global_n * dc->super.lmt) + global_m );
 }
 
 static parsec_data_t* twoDBC_kcyclic_data_of_key(parsec_data_collection_t *desc, parsec_data_key_t key)
